@@ -12,11 +12,33 @@ may propagate; the ledger obligations are judged on the state afterwards and the
 "ticks" of the background regeneration thread (regeneration_rate > 0, the module-level `time` is replaced by a
 shim whose sleep() parks the thread until the harness releases it) and a quiet twin pair (silent, no callback, no
 reads, not monitored) that receives the same operations and must report the same results.
+
+Round 4 additions: every public attribute is re-assigned mid-session (callbacks installed / replaced / withdrawn, limits sealed
+and widened, rates, thresholds, the balances themselves) and the obligations follow the CURRENT value; settings of other numeric
+and truth-value types (bool, Fraction, Decimal, falsy non-bool flags, falsy callables, str subclasses); virtual-clock sessions in
+time zones far from UTC and across a daylight-saving fall-back (the local clock steps backwards); copy / deepcopy / pickle
+duplicates that take over the session; short-lived transfer peers (fresh stores, duck-typed peers that fail before / after
+crediting) dropped and collected between requests; user exceptions of many types incl. a BaseException; stop_regeneration in the
+middle of a session; stdout bound to a STRICT UTF-8 stream with operation labels holding lone surrogates, regex / format
+metacharacters; locks that the object replaces are re-wrapped after every call; one small probe in a `python -O` child.
 """
 import collections
 import contextlib
+import copy
+import datetime
+import decimal
+import enum
+import fractions
+import functools
+import gc
+import io
+import json
+import os
+import pickle
+import subprocess
 import sys
 import threading
+import time as _time
 
 from rv import core
 from rv.locks import DetectingLock, WouldHang, wrap_all_locks
@@ -30,14 +52,28 @@ RULE = ("configs from budget,gtp,nadh in {0,1,2,5,10,100,1e9,2^53+1,2^64+3} x ma
         "over {consume(all currencies, debt, priority, call style, odd operation names), regenerate, transfer_to(other|self), convert, "
         "dormancy, interest, reset, background-regeneration tick, reporting reads, attribute reconfiguration, spawning a third instance} "
         "on either store with boundary amounts; raising state-change callbacks; first cases = systematic depth-<=3 sweep on a small grid "
-        "(alternately verbose); a few sessions of > 20 000 ops on one pair; non-trivial = history took >= 2 different consume branches "
+        "(alternately verbose); a few sessions of > 20 000 ops on one pair; round 4: ~10% of the ops re-assign a public attribute "
+        "(on_state_change installed/replaced/withdrawn incl. raising, falsy and partial callables; max_debt sealed below the outstanding debt or "
+        "widened; debt_interest; regeneration_rate; silent with falsy/truthy non-bool values; the three state thresholds; the balances themselves), "
+        "duplicate the store (copy/deepcopy/pickle; a duplicate takes over the session), transfer to/from a short-lived fresh store or to a "
+        "duck-typed peer failing before/after the credit, stop the regeneration thread, collect garbage; 10% of the sessions use bool/Fraction/"
+        "Decimal settings and bool amounts; user exceptions drawn from 13 types; half of the sessions print to a strict UTF-8 stream, labels with "
+        "lone surrogates / format / regex metacharacters; virtual-clock sessions in TZ {UTC, +14, -12, +5:45, US and AU daylight saving entered "
+        "<= 1 h before the fall-back}; 700 sessions repeated in a python -O child; non-trivial = history took >= 2 different consume branches "
         "(direct/top-up/debt/gated/refused, recognised from the observed deltas); distinct = (config class, branch sequence)")
 ASSUMPTIONS = ["non-negative integer amounts; outside the dedicated 'astronomic' sessions (integers beyond 1e308 / 4300 digits, whose OverflowError / ValueError "
                "are registered known findings) all quantities stay inside the float range (the state ratio is a float division)",
                "a user state-change callback may raise: its exception propagates, the ledger obligations are judged on the state left behind",
                "user callbacks do not call back into locking methods of the same store (the lock is not re-entrant)",
                "NADH->ATP top-up inside a failed ATP spend is net-worth-neutral and therefore allowed",
-               "when max_debt is re-assigned during a session the debt limit judged is the largest value it had in that session"]
+               "when max_debt is re-assigned during a session a debt increase is judged against the value current at that call; the "
+               "total-spend bound uses the largest value it had in that session",
+               "shallow copies (copy.copy) may share mutable internals with the original: only the duplicate that takes over the session "
+               "is judged, the retired original is not; deepcopy / pickle raising TypeError on the lock is not an energy-store operation",
+               "a console stream that itself fails (closed / broken pipe) is outside the statement; an operation LABEL that the strict UTF-8 "
+               "console cannot encode is inside it (the label is an argument of consume)",
+               "a duck-typed transfer peer (any object with regenerate) may raise: the exception propagates, the donor is debited once or not "
+               "at all, and donor + peer together never hold more than before"]
 
 
 class InvariantBroken(Exception):
@@ -46,6 +82,117 @@ class InvariantBroken(Exception):
 
 class UserCallbackError(Exception):
     """Raised by the harness's own state-change callback (class 'user hook raises')."""
+
+
+class UserAbort(BaseException):
+    """A user exception that is not an Exception (escapes `except Exception`)."""
+
+
+# exception types a user hook / duck-typed peer raises (a handler in the library could discriminate between them)
+USER_EXC = [UserCallbackError, UserCallbackError, TypeError, TimeoutError, KeyError, AssertionError, OSError, LookupError,
+            StopIteration, ZeroDivisionError, ValueError, AttributeError, RuntimeError, UserAbort]
+
+
+class FalsyHook:
+    """A callable whose truth value is False (has __len__ == 0): `if callback:` skips it, `if callback is not None:` calls it."""
+
+    def __init__(self, fn):
+        self.fn = fn
+
+    def __call__(self, *a, **k):
+        return self.fn(*a, **k)
+
+    def __len__(self):
+        return 0
+
+
+class Label(str):
+    """A str subclass carrying attributes named like the library's own record fields."""
+    success = True
+    amount = 10 ** 6
+    value = "atp"
+    energy_type = None
+
+    def __format__(self, spec):
+        return "<label %s>" % str.__format__(self, spec)
+
+
+class DuckPeer:
+    """A duck-typed transfer peer: a user's proxy around a real (roomy, silent) store. Everything public is delegated to the inner
+    store, so a transfer that consults the peer's getters / attributes keeps working; `regenerate` may fail before or after the credit."""
+
+    def __init__(self, mode, exc_type, box, inner):
+        self.__dict__.update(mode=mode, exc_type=exc_type, box=box, inner=inner, credited=0, calls=0)
+
+    def __getattr__(self, name):
+        return getattr(self.__dict__["inner"], name)
+
+    def regenerate(self, amount, *args, **kwargs):
+        self.__dict__["calls"] += 1
+        if self.mode == "raise-before":
+            e = self.exc_type("peer refuses delivery")
+            self.box.append(e)
+            raise e
+        self.inner.regenerate(amount, *args, **kwargs)
+        self.__dict__["credited"] += amount
+        if self.mode == "raise-after":
+            e = self.exc_type("peer failed after taking delivery")
+            self.box.append(e)
+            raise e
+
+
+_PLAIN = {}
+_PLAIN_BASES = (int, float, str, bytes, type(None), list, dict, tuple, set, frozenset, enum.Enum, datetime.datetime, fractions.Fraction,
+                decimal.Decimal)
+
+
+def object_signature(obj, depth=1):
+    """Identities of the instance fields that could be (or hold) a lock: everything that is not plain data. A store that swaps its lock
+    - directly or inside a private helper object of the library - changes this signature, and only then are its locks looked up again."""
+    try:
+        fields = vars(obj).values()
+    except TypeError:
+        return None                      # (__slots__ object: no cheap signature, look the locks up every time)
+    sig = []
+    for v in fields:
+        t = type(v)
+        plain = _PLAIN.get(t)
+        if plain is None:
+            plain = _PLAIN[t] = issubclass(t, _PLAIN_BASES)
+        if plain:
+            continue
+        sig.append(v)                    # the objects themselves (kept alive by the caller: an address cannot be reused unnoticed)
+        if depth and (getattr(t, "__module__", "") or "").startswith("operon_ai"):
+            sub = object_signature(v, depth - 1)
+            if sub is None:
+                return None
+            sig.extend(sub)
+    return sig
+
+
+def same_objects(x, y):
+    return x is not None and y is not None and len(x) == len(y) and all(p is q for p, q in zip(x, y))
+
+
+class _NullRaw(io.RawIOBase):
+    def writable(self):
+        return True
+
+    def write(self, b):
+        return len(b)
+
+
+def strict_stream():
+    """What a real console / log file is: a UTF-8 text stream with errors='strict' (lone surrogates raise UnicodeEncodeError)."""
+    return io.TextIOWrapper(_NullRaw(), encoding="utf-8", errors="strict", write_through=True)
+
+
+def encodable(x):
+    try:
+        str(x).encode("utf-8")
+        return True
+    except UnicodeEncodeError:
+        return False
 
 
 class _Sink:
@@ -83,8 +230,12 @@ def monitored_class():
 
         class MonitoredStore(ATP_Store):
             pass
+        MonitoredStore.__qualname__ = "MonitoredStore"      # reachable by name (pickle round trips look the class up)
+        MonitoredStore.__module__ = __name__
+        globals()["MonitoredStore"] = MonitoredStore
         _Monitored = icontract.invariant(_nonneg, error=lambda self: InvariantBroken(
             "negative balance/debt: atp=%r gtp=%r nadh=%r debt=%r" % (self.atp, self.gtp, self.nadh, _debt_of(self))))(MonitoredStore)
+        globals()["MonitoredStore"] = _Monitored
     return _Monitored
 
 
@@ -177,7 +328,11 @@ INTEREST = [0.0, 0.1, 1.0]
 ODD_INTEREST = [1e-9, 0.5, 2.5, 0.1 + 0.2, 0.999999, 1, 2]
 RATES = [0.5, 1, 2.7, 3, 10 ** 9]
 PRIORITIES = [0, 0, 5, 10, 10, 4, 6, 9, 11, -1, 10 ** 9]
-OPNAMES = ["", "x" * 300, "{}", "{0!r:>{1}}", "%s %d %(a)s", "näme ✓\n\t\u0000", "\U0001F480 apoptosis", "unknown"]
+OPNAMES = ["", "x" * 300, "{}", "{0!r:>{1}}", "%s %d %(a)s", "näme ✓\n\t\u0000", "\U0001F480 apoptosis", "unknown",
+           # round 4: format / regex metacharacters, names that look like the library's own placeholders, terminal escapes, str subclass
+           "{operation}", "{currency} {energy_type.value} {0.__class__}", "fill {} slots {", "}{", "(.*)+[a-\\", "^$*?{2,}|\\d(?P<x>", "100%", "%n %(name)",
+           "line1\r\nline2", "\x1b[31mred\x1b[0m", Label("labelled"), Label("{label}")]
+UNPRINTABLE = ["tool:\ud800", "\udfff", "a\udc80b", Label("lab\ud83d")]      # lone surrogates: a strict UTF-8 console cannot encode them
 
 # systematic sweep: small configs x all op sequences of depth <= 3 over a small op alphabet
 SWEEP_CONFIGS = [(b, g, n, d) for b in (0, 2, 5) for g in (0, 2) for n in (0, 3) for d in (0, 5)]
@@ -206,6 +361,9 @@ def n_long(tier):
     return 2 if tier == "quick" else 12
 
 
+R4Q = 200
+
+
 def plan(tier):
     extra = 18000 if tier == "quick" else 400000
     sweep = N_SWEEP // 8 if tier == "quick" else N_SWEEP
@@ -221,18 +379,28 @@ def plan(tier):
                         "callback_raised": 200, "callback_observations": 5000, "steps_on_second_store": 10000,
                         "big_value_sessions": 200, "odd_config_sessions": 400, "default_constructor_sessions": 50,
                         "long_sessions": 2, "long_session_steps": 20000, "long_session_spends_ok": 3000,
-                        "continuity_checks": 80000, "clock_jumps": 1000, "astronomic_sessions": 50}}
+                        "continuity_checks": 80000, "clock_jumps": 1000, "astronomic_sessions": 50,
+                        # round 4
+                        "reconfigured:on_state_change": R4Q, "reconfigured:max_debt": R4Q, "reconfigured:regeneration_rate": R4Q // 2,
+                        "reconfigured:atp": R4Q // 2, "debt_limit_sealed_below_debt": 20, "typed_setting_sessions": R4Q,
+                        "falsy_callables_installed": 50, "strict_stream_sessions": 1000, "strict_stream_verbose_steps": 5000,
+                        "tz_sessions_off_utc": 100, "clock_jumps_off_utc": 200, "local_clock_stepped_back": 20,
+                        "duplicates_taking_over": R4Q, "duplicate_attempts:deepcopy": 30, "duplicate_attempts:pickle": 30,
+                        "short_lived_peers": R4Q, "duck_peer_transfers": R4Q, "collections": 100, "stops_mid_session": 100,
+                        "optimized_probe_sessions": 100}}
 
 
 CORE = ("atp", "gtp", "nadh", "debt")
 
 
 def snapshot(s):
-    from operon_ai.state.metabolism import EnergyType
-    st = s.get_statistics()
-    return {"atp": s.get_balance(EnergyType.ATP), "gtp": s.get_balance(EnergyType.GTP),
-            "nadh": s.get_balance(EnergyType.NADH), "debt": s.get_debt(),
-            "consumed": st["total_consumed"], "state": s.get_state().value}
+    # the harness's own observation: public getters, called through the base class so that the contract wrappers of the monitored
+    # subclass (which re-evaluate the invariant around every call) are not paid again for each of the six reads
+    from operon_ai.state.metabolism import ATP_Store as A, EnergyType
+    st = A.get_statistics(s)
+    return {"atp": A.get_balance(s, EnergyType.ATP), "gtp": A.get_balance(s, EnergyType.GTP),
+            "nadh": A.get_balance(s, EnergyType.NADH), "debt": A.get_debt(s),
+            "consumed": st["total_consumed"], "state": A.get_state(s).value}
 
 
 def net(x):
@@ -253,12 +421,18 @@ def build(cls, cfg, cb, silent, style):
     return cls(b, gtp_budget=g, nadh_reserve=n, regeneration_rate=rate, max_debt=d, debt_interest=i, on_state_change=cb, silent=silent)
 
 
+_API = collections.Counter()     # which public methods / keywords / attributes the workload really used (flushed into the counters)
+_API_OF = {"consume": "consume", "regenerate": "regenerate", "transfer": "transfer_to", "convert": "convert_nadh_to_atp", "dormant": "enter_dormancy",
+           "wake": "exit_dormancy", "interest": "apply_debt_interest", "reset": "reset", "stop": "stop_regeneration"}
+
+
 def apply_op(ET, stores, op, i):
     """Perform `op` on stores[op['who']] (the other one is the transfer peer). Same code for the judged pair and the twin."""
     s = stores[op["who"]]
     o = stores[1 - op["who"]]
     k = op["k"]
     style = op.get("style", "kw")
+    _API[_API_OF.get(k) or ("attr:" + op["attr"] if k == "set" else k)] += 1
     if k == "consume":
         name = op.get("name", "op%d" % i)
         if style == "defaults" and op["cur"] == "ATP" and not op["debt"] and op["prio"] == 0:
@@ -287,8 +461,14 @@ def apply_op(ET, stores, op, i):
         return s.apply_debt_interest()
     if k == "reset":
         return s.reset()
+    if k == "stop":
+        return s.stop_regeneration()
     if k == "set":
-        setattr(s, op["attr"], op["value"])
+        try:
+            setattr(s, op["attr"], op["value"])
+        except AttributeError:
+            if not op["attr"].endswith("_THRESHOLD"):
+                raise                    # (a class-level constant may not be assignable per instance, e.g. on a slotted class: nothing to judge)
         return None
     raise AssertionError(k)
 
@@ -296,6 +476,7 @@ def apply_op(ET, stores, op, i):
 def do_read(ET, s, op):
     """Reporting / read-only API calls; returns a small summary that is cross-checked against the snapshot."""
     kind = op["kind"]
+    _API["read:" + kind] += 1
     if kind == "report":
         r = s.get_report()
         return {"atp": r.atp, "gtp": r.gtp, "nadh": r.nadh, "debt": r.debt}
@@ -329,7 +510,7 @@ def run_case(ctx, n):
         spec = {"cfgs": [{"budget": budget, "gtp": gtp, "nadh": nadh, "max_debt": max_debt, "interest": 0.1, "rate": 0.0},
                          {"budget": 5, "gtp": 0, "nadh": 0, "max_debt": 0, "interest": 0.1, "rate": 0.0}],
                 "silent": [not verbose, not verbose], "ops": ops, "twin": bool(n & 2), "raise_p": 0.0, "cb": [True, False],
-                "styles": ["kw", "kw"], "monitored": True, "light": False}
+                "styles": ["kw", "kw"], "monitored": True, "light": False, "strict": bool(n & 4)}
         return session(ctx, n, rng, spec)
     if n < sweep_n + n_long(ctx.tier):
         rng = ctx.rng("long", n)
@@ -338,7 +519,8 @@ def run_case(ctx, n):
                           "max_debt": rng.choice([0, 20]) if j else 20, "interest": rng.choice([0.1, 0.5]), "rate": 0.0},
                          {"budget": rng.choice([20, 50]), "gtp": 5, "nadh": 5, "max_debt": 10, "interest": 0.1, "rate": 0.0}],
                 "silent": [bool(j & 1), True], "ops": None, "twin": False, "raise_p": 0.0, "cb": [True, False],
-                "styles": ["kw", "positional"], "monitored": False, "light": True, "nsteps": LONG_STEPS, "clock": bool(j & 2)}
+                "styles": ["kw", "positional"], "monitored": False, "light": True, "nsteps": LONG_STEPS, "clock": bool(j & 2), "may_raise": True,
+                "strict": bool(j & 1), "tz": TZS[j % len(TZS)] if j & 2 else None}
         return session(ctx, n, rng, spec)
 
     if ctx.rng("astro?", n).random() < 0.012:
@@ -359,20 +541,79 @@ def run_case(ctx, n):
     else:
         dflt = False
     ticks = rng.random() < 0.03
+    # (separate generator: the draws above stay what they were before round 4)
+    r4 = ctx.rng("r4", n)
+    types = (not dflt) and r4.random() < 0.10      # settings of other numeric / truth-value types
+    if types:
+        cfgs[0].update(max_debt=r4.choice(TYPED_DEBTS), interest=r4.choice(TYPED_INTEREST))
+        if r4.random() < 0.3:
+            cfgs[0]["budget"] = r4.choice([True, 5, 10])
+        if r4.random() < 0.3:
+            cfgs[1]["max_debt"] = r4.choice(TYPED_DEBTS)
     if ticks:
         for who in (0, 1):
             if who == 0 or rng.random() < 0.5:
-                cfgs[who]["rate"] = rng.choice(RATES)
+                cfgs[who]["rate"] = r4.choice(TYPED_RATES) if types else rng.choice(RATES)
     raise_p = 0.0 if ticks else (rng.choice([0.3, 0.6, 1.0]) if rng.random() < 0.15 else 0.0)
-    spec = {"cfgs": cfgs, "silent": [False if dflt else rng.random() < 0.6, rng.random() < 0.6], "ops": None,
-            "twin": (not ticks) and raise_p == 0.0 and rng.random() < 0.35, "raise_p": raise_p,
-            "cb": [not dflt and rng.random() < 0.85, rng.random() < 0.5], "shared_cb": rng.random() < 0.3,
-            "styles": ["defaults" if dflt else rng.choice(["kw", "positional"]), rng.choice(["kw", "positional"])],
-            "monitored": True, "light": False, "big": big, "odd": odd, "dflt": dflt, "clock": (not ticks) and rng.random() < 0.2}
+    silent = [False if dflt else rng.random() < 0.6, rng.random() < 0.6]
+    if types:
+        silent = [r4.choice(FLAGS_TRUE) if x else r4.choice(FLAGS_FALSE) for x in silent]
+    twin = (not ticks) and raise_p == 0.0 and rng.random() < 0.35
+    cb = [not dflt and rng.random() < 0.85, rng.random() < 0.5]
+    shared_cb = rng.random() < 0.3
+    styles = ["defaults" if dflt else rng.choice(["kw", "positional"]), rng.choice(["kw", "positional"])]
+    clock = (not ticks) and rng.random() < 0.2
+    spec = {"cfgs": cfgs, "silent": silent, "ops": None,
+            "twin": twin, "raise_p": raise_p,
+            "cb": cb, "shared_cb": shared_cb,
+            "styles": styles,
+            "monitored": True, "light": False, "big": big, "odd": odd, "dflt": dflt, "clock": clock,
+            # round 4
+            "types": types, "strict": r4.random() < 0.5, "tz": r4.choice(TZS) if clock and r4.random() < 0.7 else None,
+            "may_raise": not ticks and not twin, "exc": r4.choice(USER_EXC), "falsy_cb": r4.random() < 0.06,
+            "r4": r4}
     return session(ctx, n, rng, spec)
 
 
 JUMPS = [0.001, 0.5, 1.0, 59.999, 3600, 86399.5, 86400, 86401, 90000, 30 * 86400, 400 * 86400]
+SMALL_JUMPS = [0.001, 0.5, 1.0, 59.999, 600, 1800, 3600]
+
+# round 4, value types (class B): bool where an int is usual, Fraction / Decimal for fractional settings, falsy / truthy non-bool flags
+F, D = fractions.Fraction, decimal.Decimal
+TYPED_DEBTS = [True, False, F(5, 2), D("2.5"), F(7), D("5"), D("0"), F(1, 3), 5.0]
+TYPED_INTEREST = [F(1, 10), D("0.1"), True, False, D("0"), F(3, 2), D("1.00"), F(1, 3)]
+TYPED_RATES = [True, F(5, 2), D("1.5"), 2, 0.5]
+FLAGS_TRUE = [True, 1, "yes", "False", (0,), 0.5]
+FLAGS_FALSE = [False, 0, None, "", (), 0.0]
+THRESHOLDS = [0, 0.1, 0.3, 0.5, 0.9, 1, F(1, 3), D("0.2"), True, -1, 2]
+
+# round 4, process time zone (class C): POSIX TZ strings (no tz database needed). The two with daylight saving are entered shortly before
+# their next fall-back, so that the local clock steps backwards during the session while the virtual (UTC) clock only moves forward.
+TZS = ["UTC0", "XXX-14", "YYY12", "ZZZ-5:45", "EST5EDT,M3.2.0,M11.1.0", "AEST-10AEDT,M10.1.0,M4.1.0/3", "EST5EDT,M3.2.0,M11.1.0"]
+_FALLBACK = {}
+
+
+def next_fallback(tz_now_set):
+    """Epoch second of the next daylight-saving fall-back of the CURRENT process time zone (None if it has none)."""
+    if tz_now_set not in _FALLBACK:
+        t = int(_time.time()) // 3600 * 3600
+        found = None
+        prev = _time.localtime(t).tm_isdst
+        for h in range(1, 370 * 24):
+            cur = _time.localtime(t + h * 3600).tm_isdst
+            if prev > 0 and cur == 0:
+                lo, hi = t + (h - 1) * 3600, t + h * 3600      # refine to the second
+                while hi - lo > 1:
+                    mid = (lo + hi) // 2
+                    if _time.localtime(mid).tm_isdst > 0:
+                        lo = mid
+                    else:
+                        hi = mid
+                found = hi
+                break
+            prev = cur
+        _FALLBACK[tz_now_set] = found
+    return _FALLBACK[tz_now_set]
 
 HUGE = [10 ** 309, 2 ** 1100, 10 ** 400, 10 ** 5000]          # non-negative integers beyond the float range / beyond the int->str digit limit
 
@@ -452,8 +693,34 @@ def session(ctx, n, rng, spec):
         return _session(ctx, n, rng, spec, None)
     import operon_ai.state.metabolism as mm
     from rv.vclock import VClock, patched
-    with patched(VClock(), mm) as clock:
-        return _session(ctx, n, rng, spec, clock)
+    tz = spec.get("tz")
+    if tz is None or not hasattr(_time, "tzset"):
+        if tz is not None:
+            ctx.count("tz_unavailable")
+            spec["tz"] = None
+        with patched(VClock(), mm) as clock:
+            return _session(ctx, n, rng, spec, clock)
+    # the process time zone is changed for this one session only (cases run one after the other in a shard) and always restored
+    saved = os.environ.get("TZ")
+    os.environ["TZ"] = tz
+    _time.tzset()
+    try:
+        base = None
+        fb = next_fallback(tz)
+        if fb is not None:
+            base = fb - spec["r4"].choice([1, 30, 600, 1800, 3599]) if "r4" in spec else fb - 600
+            spec["fallback_in"] = fb - base
+        ctx.count("tz_sessions")
+        if _time.localtime(0).tm_gmtoff != 0 or fb is not None:
+            ctx.count("tz_sessions_off_utc")
+        with patched(VClock(base), mm) as clock:
+            return _session(ctx, n, rng, spec, clock)
+    finally:
+        if saved is None:
+            os.environ.pop("TZ", None)
+        else:
+            os.environ["TZ"] = saved
+        _time.tzset()
 
 
 def _session(ctx, n, rng, spec, clock):
@@ -474,9 +741,18 @@ def _session(ctx, n, rng, spec, clock):
     stores = [None, None]
     cb_log = []
     problems = []            # (mechanism, what) found inside callbacks; reported after the call returns
+    raised_now = []          # user exceptions (hooks, duck-typed peers) raised during the current call, by identity
+    r4 = spec.get("r4") or ctx.rng("r4s", n)
+    may_raise = bool(spec.get("may_raise"))
+    exc_types = [spec.get("exc") or UserCallbackError]
+    strict = bool(spec.get("strict"))
+    out = strict_stream() if strict else SINK
+    if strict:
+        ctx.count("strict_stream_sessions")
 
-    def make_cb(who):
-        def cb(state):
+    def make_cb(who, p, shape="plain"):
+        """An observer bound to whatever store currently sits at position `who`; raises a user exception with probability p."""
+        def cb(state, *extra):
             cb_log.append((who, getattr(state, "value", state)))
             s = stores[who]
             if s is not None:
@@ -485,20 +761,29 @@ def _session(ctx, n, rng, spec, clock):
                         ATP_Store.get_debt(s)]
                 if min(vals) < 0:
                     problems.append(("negative-balance", "state-change callback saw atp/gtp/nadh/debt = %r" % (vals,)))
-            if raise_p and rng.random() < raise_p:
+            if p and rng.random() < p:
                 ctx.count("callback_raised")
-                raise UserCallbackError("user hook fails")
+                e = exc_types[0]("user hook fails")
+                ctx.count("callback_raised_type:" + type(e).__name__)
+                raised_now.append(e)
+                raise e
+        if shape == "falsy":
+            ctx.count("falsy_callables_installed")
+            return FalsyHook(cb)
+        if shape == "partial":
+            return functools.partial(cb)
         return cb
 
-    cbs = [make_cb(0) if spec["cb"][0] else None, make_cb(1) if spec["cb"][1] else None]
-    if spec.get("shared_cb") and cbs[0] and cbs[1]:
+    shape0 = "falsy" if spec.get("falsy_cb") else "plain"
+    cbs = [make_cb(0, raise_p, shape0) if spec["cb"][0] else None, make_cb(1, raise_p) if spec["cb"][1] else None]
+    if spec.get("shared_cb") and cbs[0] is not None and cbs[1] is not None:
         cbs[1] = cbs[0]      # one callback object registered with both stores
 
     threads = [None, None]
     started = []
     for who in (0, 1):
         before = set(threading.enumerate())
-        with contextlib.redirect_stdout(SINK):
+        with contextlib.redirect_stdout(out):
             stores[who] = build(cls, cfgs[who], cbs[who], spec["silent"][who], spec["styles"][who])
         if cfgs[who]["rate"] > 0:
             new = [t for t in threading.enumerate() if t not in before]
@@ -508,6 +793,9 @@ def _session(ctx, n, rng, spec, clock):
             else:
                 ctx.count("tick_unavailable")
     wrapped = wrap_all_locks(stores[0], DetectingLock, "ATP_Store") + wrap_all_locks(stores[1], DetectingLock, "peer")
+    lock_sig = [object_signature(stores[0]), object_signature(stores[1])]
+    if spec.get("types"):
+        ctx.count("typed_setting_sessions")
     if spec.get("dflt"):
         ctx.count("default_constructor_sessions")
     if spec.get("big"):
@@ -520,8 +808,10 @@ def _session(ctx, n, rng, spec, clock):
         twins = [build(ATP_Store, cfgs[w], None, True, "kw") for w in (0, 1)]
         ctx.count("twin_sessions")
 
-    S = [{"limit_max": cfgs[w]["max_debt"], "spent_ok": 0, "regen_free": True,
+    # the limit is kept as an exact Fraction: the harness itself must be able to compare int / float / Fraction / Decimal settings
+    S = [{"limit_max": fractions.Fraction(cfgs[w]["max_debt"]), "spent_ok": 0, "regen_free": True,
           "initial_total": cfgs[w]["budget"] + cfgs[w]["gtp"] + cfgs[w]["nadh"], "last": None} for w in (0, 1)]
+    retired = []             # originals whose duplicate took over the session (kept alive, or dropped and collected: address reuse)
 
     def amount(who, cur):
         s = stores[who]
@@ -532,7 +822,59 @@ def _session(ctx, n, rng, spec, clock):
         pool = [0, 1, 2, 3, 5, max(0, bal - 1), bal, bal + 1, cap + 1, bal + s.nadh, bal + s.nadh + 1, bal + md, bal + md + 1, 10 ** 9]
         if spec.get("big"):
             pool += [2 ** 53 + 1, 2 ** 64, bal + 2 ** 53 + 1]
-        return rng.choice(pool)
+        v = rng.choice(pool)
+        if spec.get("types") and r4.random() < 0.1:
+            return r4.choice([True, False])          # bool where an int is usual
+        return v
+
+    def gen_r4_op(who):
+        """Round-4 classes: settings re-assigned mid-session, duplicates, short-lived peers, failing peers, stop_regeneration."""
+        s = stores[who]
+        kinds = ["set", "set", "set", "set", "stop", "gc"]
+        if twins is None:
+            kinds += ["temp", "temp", "temp", "duck", "duck"]
+        if not want_ticks:
+            kinds += ["dup", "dup"]
+        k = r4.choice(kinds)
+        if k == "set":
+            attr = r4.choice(["on_state_change", "on_state_change", "max_debt", "max_debt", "debt_interest", "regeneration_rate", "silent",
+                              "STARVING_THRESHOLD", "CONSERVING_THRESHOLD", "FEASTING_THRESHOLD", "atp", "gtp", "nadh"])
+            typed = spec.get("types")
+            if attr == "on_state_change":
+                kind = r4.choice(["none", "observer", "observer", "falsy", "partial"] + (["raising", "raising", "raising"] if may_raise else []))
+                return {"k": "set", "who": who, "attr": attr, "kind": kind, "p": r4.choice([0.5, 1.0]) if kind == "raising" else 0.0,
+                        "exc": r4.randrange(len(USER_EXC))}
+            if attr == "max_debt":      # sealed later (0, below the outstanding debt) / widened later
+                v = r4.choice([0, 0, 1, max(0, s.get_debt() - 1), s.get_debt(), s.get_debt() + 1, 5, 50] + (TYPED_DEBTS if typed else []))
+            elif attr == "debt_interest":
+                v = r4.choice(INTEREST + ODD_INTEREST + (TYPED_INTEREST if typed else []))
+            elif attr == "regeneration_rate":
+                v = r4.choice([0, 0.0, 0.5, 1, 3, 2.7, 10 ** 9] + (TYPED_RATES if typed else []))
+            elif attr == "silent":
+                v = r4.choice(FLAGS_TRUE + FLAGS_FALSE)
+            elif attr.endswith("_THRESHOLD"):
+                v = r4.choice(THRESHOLDS)
+            else:                       # the balances are public attributes too: a user tops a pool up (or empties it) by hand
+                cap = caps(s)[attr]
+                v = r4.choice([0, 1, 2, 5, cap, cap + 1, s.get_balance(ET[attr.upper()]), 100])
+            return {"k": "set", "who": who, "attr": attr, "value": v}
+        if k == "dup":
+            return {"k": "dup", "who": who, "how": r4.choice(["copy", "copy", "copy", "deepcopy", "pickle"])}
+        if k in ("temp", "duck"):
+            cur = r4.choice(["ATP", "ATP", "GTP", "NADH"])
+            op = {"k": k, "who": who, "amt": amount(who, cur), "cur": cur}
+            if k == "duck":
+                op["mode"] = r4.choice(["ok", "raise-before", "raise-after", "raise-after"]) if may_raise else "ok"
+                op["exc"] = r4.randrange(len(USER_EXC))
+                return op
+            op.update(dir=r4.choice(["out", "out", "in"]), budget=r4.choice(GRID), gtp=r4.choice([0, 0, 5]), nadh=r4.choice([0, 0, 5]),
+                      max_debt=r4.choice([0, 5, 50]), pre=r4.choice([0, 0, 1, 5, 12, 60]), verbose=r4.random() < 0.3,
+                      cb=r4.choice(["none", "observer"] + (["raising", "raising"] if may_raise else [])), exc=r4.randrange(len(USER_EXC)),
+                      collect=r4.random() < 0.15)
+            if op["dir"] == "in":
+                op["amt"] = r4.choice([0, 1, 2, 5, op["budget"], op["budget"] + 1])
+            return op
+        return {"k": k, "who": who}
 
     def gen_op():
         who = 0 if rng.random() < 0.75 else 1
@@ -540,7 +882,9 @@ def _session(ctx, n, rng, spec, clock):
         if any(threads) and rng.random() < 0.25:
             return {"k": "tick", "who": rng.choice([w for w in (0, 1) if threads[w] is not None])}
         if clock is not None and rng.random() < 0.15:
-            return {"k": "clock", "who": who, "seconds": rng.choice(JUMPS)}
+            return {"k": "clock", "who": who, "seconds": rng.choice(SMALL_JUMPS if spec.get("fallback_in") and r4.random() < 0.6 else JUMPS)}
+        if r4.random() < 0.10:
+            return gen_r4_op(who)
         style = rng.choice(["kw", "kw", "positional", "defaults"])
         if r < 0.44:
             cur = rng.choice(["ATP", "ATP", "ATP", "GTP", "NADH"])
@@ -548,6 +892,8 @@ def _session(ctx, n, rng, spec, clock):
                   "prio": rng.choice(PRIORITIES), "style": style}
             if rng.random() < 0.25:
                 op["name"] = rng.choice(OPNAMES)
+            if r4.random() < 0.02:
+                op["name"] = r4.choice(UNPRINTABLE)
             return op
         if r < 0.55:
             cur = rng.choice(["ATP", "ATP", "GTP", "NADH"])
@@ -590,6 +936,8 @@ def _session(ctx, n, rng, spec, clock):
         r = rng.random()
         if clock is not None and rng.random() < 0.01:
             return {"k": "clock", "who": who, "seconds": rng.choice(JUMPS)}
+        if r4.random() < 0.01:
+            return gen_r4_op(who)
         if r < 0.55:
             cur = rng.choice(["ATP", "ATP", "ATP", "GTP", "NADH"])
             return {"k": "consume", "who": who, "amt": rng.choice([0, 1, 1, 2, 3, 7, 30]), "cur": cur, "debt": rng.random() < 0.4,
@@ -613,7 +961,9 @@ def _session(ctx, n, rng, spec, clock):
     history = collections.deque(maxlen=12)
     nhist = [0]
     branches = []
-    flags = {k: spec.get(k) for k in ("silent", "twin", "raise_p", "styles", "cb", "shared_cb", "clock") if spec.get(k) is not None}
+    flags = {k: spec.get(k) for k in ("silent", "twin", "raise_p", "styles", "cb", "shared_cb", "clock", "strict", "types", "tz",
+                                             "fallback_in", "may_raise", "falsy_cb") if spec.get(k) is not None}
+    flags["user_exception"] = exc_types[0].__name__
 
     def viol(mech, what):
         ctx.violation(mech, what, {"configs": cfgs, "flags": flags, "history": list(history), "steps_before": max(0, nhist[0] - len(history))})
@@ -629,6 +979,9 @@ def _session(ctx, n, rng, spec, clock):
                     viol("raises:stop_regeneration:%s" % type(e).__name__, "stop_regeneration raised %r" % (e,))
         for t in started:
             shim.forget(t)
+        for name, cnt in _API.items():
+            ctx.count("api:" + name, cnt)
+        _API.clear()
         ctx.counters["invariant_evaluations"] = _INV["n"]
         ctx.counters["lock_acquisitions"] = ctx.counters.get("lock_acquisitions", 0) + sum(w.acquisitions for w in wrapped)
 
@@ -663,16 +1016,104 @@ def _session(ctx, n, rng, spec, clock):
         verbose_now = not getattr(s, "silent", True)
         if verbose_now:
             ctx.count("verbose_steps")
+            if strict:
+                ctx.count("strict_stream_verbose_steps")
         ret = None
         exc = None
+        aux = {}
+        del raised_now[:]
+        lim_raw = s.max_debt                               # the debt limit CURRENT at this call
+        rate_now = getattr(s, "regeneration_rate", 0)
         nthread_err = len(_SHIM["thread_errors"])
         try:
-            with contextlib.redirect_stdout(SINK):
-                if k == "read":
+            with contextlib.redirect_stdout(out):
+                if k == "set" and op["attr"] == "on_state_change":
+                    kind = op["kind"]
+                    exc_types[0] = USER_EXC[op["exc"]]
+                    new_cb = None if kind == "none" else make_cb(who, op["p"], kind if kind in ("falsy", "partial") else "plain")
+                    s.on_state_change = new_cb
+                    _API["attr:on_state_change"] += 1
+                elif k == "dup":
+                    how = op["how"]
+                    ctx.count("duplicate_attempts:" + how)
+                    try:
+                        if how == "copy":
+                            dup = copy.copy(s)
+                        elif how == "deepcopy":
+                            dup = copy.deepcopy(s)
+                        else:
+                            dup = pickle.loads(pickle.dumps(s))
+                    except (TypeError, pickle.PicklingError, AttributeError, RecursionError) as e:
+                        # (the unchanged store holds a lock: deep copies / pickles are refused by the lock itself; not an energy-store operation)
+                        ret = "unsupported:" + type(e).__name__
+                        ctx.count("duplicate_unsupported:" + how)
+                    else:
+                        retired.append(s)
+                        stores[who] = dup
+                        ret = "duplicated"
+                        ctx.count("duplicates_taking_over")
+                elif k == "gc":
+                    del retired[:]
+                    gc.collect() if r4.random() < 0.05 else gc.collect(1)      # (young generations mostly: a full collection costs ~10 ms)
+                    ctx.count("collections")
+                elif k == "stop":
+                    t = threads[who]
+                    if t is not None:
+                        # the store joins its (parked) thread after asking it to stop: release the thread at that very moment
+                        def join(timeout=None, _t=t, _j=t.join):
+                            shim.finish(_t)
+                            return _j(timeout)
+                        t.join = join
+                    _API["stop_regeneration"] += 1
+                    ret = s.stop_regeneration()
+                    threads[who] = None
+                    ctx.count("stops_mid_session")
+                elif k == "duck":
+                    inner = ATP_Store(10 ** 6, 10 ** 6, 10 ** 6, silent=True)
+                    inner.atp = inner.gtp = inner.nadh = 0          # room for any credit
+                    duck = DuckPeer(op["mode"], USER_EXC[op["exc"]], raised_now, inner)
+                    aux["duck"] = duck
+                    ctx.count("duck_peer_transfers")
+                    _API["transfer_to"] += 1
+                    ret = s.transfer_to(duck, op["amt"], ET[op["cur"]])
+                elif k == "temp":
+                    p_raise = 1.0 if op["cb"] == "raising" else 0.0
+                    texc = USER_EXC[op["exc"]]
+
+                    def tcb(state, _p=p_raise, _e=texc):
+                        ctx.count("callback_observations")
+                        if _p:
+                            ctx.count("callback_raised")
+                            e = _e("short-lived peer's hook fails")
+                            raised_now.append(e)
+                            raise e
+                    temp = cls(op["budget"], op["gtp"], op["nadh"], 0.0, op["max_debt"], 0.1, None if op["cb"] == "none" else tcb, not op["verbose"])
+                    aux["wrapped"] = wrap_all_locks(temp, DetectingLock, "short-lived")
+                    if op["pre"]:
+                        try:
+                            temp.consume(op["pre"], "pre", ET["ATP"], True, 10)
+                        except BaseException as e:  # noqa
+                            if not any(e is r for r in raised_now):
+                                raise
+                        del raised_now[:]
+                    aux["temp"], aux["tb"] = temp, snapshot(temp)
+                    ctx.count("short_lived_peers")
+                    _API["transfer_to"] += 1
+                    if op["dir"] == "out":
+                        ret = s.transfer_to(temp, op["amt"], ET[op["cur"]])
+                    else:
+                        ret = temp.transfer_to(s, op["amt"], ET[op["cur"]])
+                elif k == "read":
                     ret = do_read(ET, s, op)
                 elif k == "clock":
+                    _dtm = datetime
+                    local_before = _dtm.datetime.fromtimestamp(clock.time())
                     clock.advance(op["seconds"])
                     ctx.count("clock_jumps")
+                    if spec.get("tz"):
+                        ctx.count("clock_jumps_off_utc")
+                        if _dtm.datetime.fromtimestamp(clock.time()) < local_before:
+                            ctx.count("local_clock_stepped_back")
                 elif k == "spawn":
                     third = ATP_Store(op["budget"], max_debt=op["max_debt"]) if rng.random() < 0.5 else cls(op["budget"], max_debt=op["max_debt"], silent=True)
                     r1 = third.consume(op["budget"] + 1, "spawned", allow_debt=True, priority=10)
@@ -701,9 +1142,26 @@ def _session(ctx, n, rng, spec, clock):
             return finish()
         except BaseException as e:
             exc = e
+        s = stores[who]              # (a duplicate may have taken over)
         a, oa = snapshot(s), snapshot(o)
         st["last"], S[1 - who]["last"] = a, oa
         rec = {"op": op, "ret": ret, "before": b, "after": a}
+        # ---- locks: a lock object that the store itself replaced is wrapped again (and must not have been left held)
+        for w_i in (0, 1):
+            sig = object_signature(stores[w_i])
+            if same_objects(sig, lock_sig[w_i]):
+                continue
+            fresh = wrap_all_locks(stores[w_i], DetectingLock, "ATP_Store" if w_i == 0 else "peer")
+            lock_sig[w_i] = object_signature(stores[w_i])
+            if fresh and k != "dup":
+                ctx.count("locks_replaced_by_object", len(fresh))
+            for fw in fresh:
+                wrapped.append(fw)
+                inner_locked = getattr(fw.inner, "locked", None)
+                if callable(inner_locked) and inner_locked():
+                    history.append(rec)
+                    viol("lock-left-held", "%s installed a new lock %s on the store and returned with it held" % (k, fw.name))
+                    return finish()
         if k in ("transfer", "spawn") or ob != oa:
             rec["other_before"], rec["other_after"] = ob, oa
         history.append(rec)
@@ -721,10 +1179,20 @@ def _session(ctx, n, rng, spec, clock):
             threads[who] = None
             return finish()
         user_exc = False
+        if k == "temp" and "temp" in aux:
+            aux["ta"] = snapshot(aux["temp"])
+            rec["short_lived_before"], rec["short_lived_after"] = aux["tb"], aux["ta"]
+        if k == "duck" and "duck" in aux:
+            rec["duck_peer"] = {"mode": op["mode"], "calls": aux["duck"].calls, "credited": aux["duck"].credited}
         if exc is not None:
             rec["raised"] = repr(exc)
-            if isinstance(exc, UserCallbackError) and raise_p:
+            if any(exc is r for r in raised_now):
                 user_exc = True          # the user's own exception propagates (as on the unchanged tree); judge the state left behind
+                ctx.count("user_exception_propagated:" + type(exc).__name__)
+            elif (isinstance(exc, UnicodeEncodeError) and k == "consume" and verbose_now and strict and not encodable(op.get("name", ""))):
+                viol("unprintable-operation-name", "consume(%d, %s) on a non-silent store whose console is a strict UTF-8 stream raised UnicodeEncodeError "
+                     "for an operation label holding a lone surrogate instead of reporting the refused spend" % (op["amt"], op["cur"]))
+                return finish()
             elif k == "spawn":
                 viol("raises:spawn:%s" % type(exc).__name__, "constructing/using a fresh third instance (budget %r, max_debt %r) raised %r" % (op["budget"], op["max_debt"], exc))
                 return finish()
@@ -734,12 +1202,12 @@ def _session(ctx, n, rng, spec, clock):
             else:
                 viol("raises:%s:%s" % (k, type(exc).__name__), "%s%s raised %r" % (k, " (silent=False)" if verbose_now else "", exc))
                 return finish()
-        held = [w.name for w in wrapped if w.locked()]
+        held = [w.name for w in wrapped + aux.get("wrapped", []) if w.locked()]
         if held:
             viol("lock-left-held", "%s returned%s with %s still held" % (k, " (callback raised)" if user_exc else "", held))
             return finish()
         # ---- quiet twin: same operation, same results
-        if twins is not None and k not in ("read", "spawn", "tick", "clock") and not (k == "set" and op["attr"] == "silent"):
+        if twins is not None and k not in ("read", "spawn", "tick", "clock", "dup", "gc") and not (k == "set" and op["attr"] in ("silent", "on_state_change")):
             ctx.count("twin_steps")
             try:
                 tret = apply_op(ET, twins, op, i)
@@ -766,15 +1234,31 @@ def _session(ctx, n, rng, spec, clock):
             viol("other-store-moved", "%s on store %d changed the other store %s -> %s" % (k, who, ob, oa))
         if k == "set":
             ctx.count("reconfigurations")
+            ctx.count("reconfigured:" + op["attr"])
             if op["attr"] == "max_debt":
-                st["limit_max"] = max(st["limit_max"], op["value"])
-            if a != b:
+                st["limit_max"] = max(st["limit_max"], fractions.Fraction(op["value"]))
+                if op["value"] < b["debt"]:
+                    ctx.count("debt_limit_sealed_below_debt")
+            if op["attr"] in ("atp", "gtp", "nadh"):
+                # a balance assigned by hand: exactly that pool takes the value, nothing else moves; the session is no longer regeneration-free
+                st["regen_free"] = False
+                expect = dict(b)
+                expect[op["attr"]] = op["value"]
+                if a != expect:
+                    viol("reconfiguration-moves-balances", "assigning %s = %r left %s (expected %s)" % (op["attr"], op["value"], a, expect))
+            elif a != b:
                 viol("reconfiguration-moves-balances", "assigning %s changed the ledger %s -> %s" % (op["attr"], b, a))
             continue
         if k == "clock":
             # no regeneration is configured in these sessions: the passage of time alone must not move the ledger
             if a != b or oa != ob:
                 viol("time-moves-ledger", "a clock jump of %r s changed the ledger: %s -> %s / other %s -> %s" % (op["seconds"], b, a, ob, oa))
+            continue
+        if k in ("dup", "gc", "stop"):
+            # a duplicate carries the same ledger as its original; collecting garbage / stopping the regeneration thread moves nothing
+            if a != b or oa != ob:
+                viol({"dup": "duplicate-differs", "gc": "state-moved-between-calls", "stop": "stop-moves-ledger"}[k],
+                     "%s changed the ledger: %s -> %s / other %s -> %s" % (op.get("how", k), b, a, ob, oa))
             continue
         if k in ("read", "spawn"):
             if k == "read":
@@ -788,8 +1272,12 @@ def _session(ctx, n, rng, spec, clock):
         if a["debt"] > b["debt"] and k != "interest":
             if k != "consume" or not op["debt"]:
                 viol("debt-created-by-" + k, "debt rose %d -> %d in %s" % (b["debt"], a["debt"], k))
-            if a["debt"] > st["limit_max"]:
-                viol("debt-limit-exceeded", "debt %d > max_debt %s after %s" % (a["debt"], st["limit_max"], k))
+            try:
+                lim_now = fractions.Fraction(lim_raw)
+            except Exception:  # noqa  (a setting the harness cannot interpret: fall back to the session maximum)
+                lim_now = st["limit_max"]
+            if a["debt"] > lim_now:
+                viol("debt-limit-exceeded", "debt %d > max_debt %s (the value current at the call) after %s" % (a["debt"], lim_now, k))
         if k == "consume":
             cost, cur = op["amt"], op["cur"]
             if user_exc:
@@ -842,7 +1330,7 @@ def _session(ctx, n, rng, spec, clock):
         elif k in ("regenerate", "tick"):
             st["regen_free"] = False
             if k == "tick":
-                amt, cur = int(cfgs[who]["rate"]), "atp"
+                amt, cur = int(rate_now), "atp"           # the rate CURRENT at the tick
             else:
                 amt, cur = op["amt"], op["cur"].lower()
             cap = caps(s)[cur]
@@ -892,6 +1380,60 @@ def _session(ctx, n, rng, spec, clock):
                     viol("debt-created-by-transfer", "destination debt rose %d -> %d" % (ob["debt"], oa["debt"]))
                 if not getattr(o, "silent", True) and cur == "atp" and ob["debt"] > 0 and oa["debt"] == 0:
                     ctx.count("verbose_debt_repaid_in_full")
+        elif k == "duck":
+            # a duck-typed peer: the donor is debited exactly once or not at all, and donor + peer never hold more than before
+            amt, duck = op["amt"], aux["duck"]
+            st["regen_free"] = False
+            if user_exc:
+                if d not in (0, -amt) or duck.credited + d > 0:
+                    viol("transfer-creates-energy", "transfer of %d to a peer that raised (%s) moved the donor by %d while the peer had taken %d" % (amt, op["mode"], d, duck.credited))
+            elif ret is True:
+                ctx.count("transfers_ok")
+                if d != -amt:
+                    viol("transfer-debit-mismatch", "transfer of %d to a duck-typed peer debited the source by %d" % (amt, -d))
+                if duck.credited > amt:
+                    viol("transfer-creates-energy", "transfer of %d credited the duck-typed peer with %d" % (amt, duck.credited))
+            elif ret is False:
+                if d != 0 or duck.credited or any(a[f] != b[f] for f in CORE):
+                    viol("failed-transfer-moves", "failed transfer to a duck-typed peer moved the source by %d and credited %d" % (d, duck.credited))
+            else:
+                viol("transfer-return-type", "transfer_to returned %r" % (ret,))
+        elif k == "temp":
+            # a short-lived peer (fresh store, dropped afterwards): same transfer obligations in either direction
+            amt, cur = op["amt"], op["cur"].lower()
+            tb, ta = aux["tb"], aux["ta"]
+            dt = net(ta) - net(tb)
+            st["regen_free"] = False
+            outward = op["dir"] == "out"
+            ds, dd = (d, dt) if outward else (dt, d)                 # source / destination net-worth movement
+            src_b, src_a = (b, a) if outward else (tb, ta)
+            dst_b, dst_a = (tb, ta) if outward else (b, a)
+            capd = caps(aux["temp"] if outward else s)[cur]
+            if min(ta[f] for f in CORE) < 0:
+                viol("negative-balance", "short-lived peer left with %s" % (ta,))
+            if user_exc:
+                if ds not in (0, -amt) or dd > -ds:
+                    viol("callback-raise-breaks-ledger", "transfer of %d (%s a short-lived peer) whose state-change callback raised moved the source by %d and the destination by %d" % (
+                        amt, "to" if outward else "from", ds, dd))
+            elif ret is True:
+                ctx.count("transfers_ok")
+                if ds != -amt:
+                    viol("transfer-debit-mismatch", "transfer of %d debited the source by %d" % (amt, -ds))
+                if dd > amt or ds + dd > 0:
+                    viol("transfer-creates-energy", "transfer of %d credited the destination by %d" % (amt, dd))
+            elif ret is False:
+                if ds != 0 or dd != 0 or any(src_a[f] != src_b[f] for f in CORE):
+                    viol("failed-transfer-moves", "failed transfer changed net worth (source %d, destination %d)" % (ds, dd))
+            else:
+                viol("transfer-return-type", "transfer_to returned %r" % (ret,))
+            if dst_a[cur] > max(capd, dst_b[cur]):
+                viol("transfer-above-capacity", "transfer lifted the destination %s balance to %d above capacity %d" % (cur, dst_a[cur], capd))
+            if dst_a["debt"] > dst_b["debt"] or src_a["debt"] > src_b["debt"]:
+                viol("debt-created-by-transfer", "debt rose in a transfer: source %d -> %d, destination %d -> %d" % (src_b["debt"], src_a["debt"], dst_b["debt"], dst_a["debt"]))
+            aux.clear()
+            if op["collect"]:
+                gc.collect(1)
+                ctx.count("collections")
         elif k == "convert":
             c = ret
             if not isinstance(c, int) or c > op["amt"]:
@@ -925,6 +1467,104 @@ def _session(ctx, n, rng, spec, clock):
         ctx.nontrivial((clsfp, tuple(branches[:10])))
     if n % 4000 == 0:
         ctx.sample({"configs": cfgs, "flags": flags, "history": list(history)[:6]})
+
+
+# ---------------------------------------------------------------------------------------------------------------------
+# what the workload calls (kept by hand; the `api:*` counters show the real usage). Anything public on the class that is not listed
+# here is reported as an informational `api_not_exercised:<name>` counter.
+EXERCISED_METHODS = {"consume", "regenerate", "transfer_to", "convert_nadh_to_atp", "apply_debt_interest", "enter_dormancy", "exit_dormancy",
+                     "get_balance", "get_state", "get_debt", "get_report", "get_statistics", "get_transactions", "reset", "stop_regeneration"}
+EXERCISED_KEYWORDS = {"__init__": {"budget", "gtp_budget", "nadh_reserve", "regeneration_rate", "max_debt", "debt_interest", "on_state_change", "silent"},
+                      "consume": {"cost", "operation", "energy_type", "allow_debt", "priority"}, "regenerate": {"amount", "energy_type"},
+                      "transfer_to": {"other", "amount", "energy_type"}, "convert_nadh_to_atp": {"amount"}, "get_balance": {"energy_type"},
+                      "get_transactions": {"limit"}}
+EXERCISED_ATTRS = {"atp", "gtp", "nadh", "max_atp", "max_gtp", "max_nadh", "regeneration_rate", "max_debt", "debt_interest", "on_state_change", "silent",
+                   "CONSERVING_THRESHOLD", "STARVING_THRESHOLD", "FEASTING_THRESHOLD"}
+
+
+def api_inventory(ctx):
+    import inspect
+    from operon_ai.state.metabolism import ATP_Store
+    for name in dir(ATP_Store):
+        if name.startswith("_"):
+            continue
+        member = getattr(ATP_Store, name)
+        if callable(member):
+            ctx.count("api_public_methods")
+            if name not in EXERCISED_METHODS:
+                ctx.count("api_not_exercised:" + name)
+        elif name not in EXERCISED_ATTRS:
+            ctx.count("api_not_exercised:attr:" + name)
+    for meth, known in EXERCISED_KEYWORDS.items():
+        try:
+            params = [p for p in inspect.signature(getattr(ATP_Store, meth)).parameters if p != "self"]
+        except (TypeError, ValueError, AttributeError):
+            continue
+        for p_ in params:
+            ctx.count("api_keywords")
+            if p_ not in known:
+                ctx.count("api_not_exercised:%s(%s=)" % (meth, p_))
+    try:
+        probe = ATP_Store(1, silent=True)
+        for name in vars(probe):
+            if not name.startswith("_") and name not in EXERCISED_ATTRS:
+                ctx.count("api_not_exercised:attr:" + name)
+    except Exception:  # noqa
+        pass
+
+
+OPT_CASES = 700
+
+
+def optimized_probe(seed, tier):
+    """Runs inside a `python -O` child (asserts and `if __debug__:` blocks are compiled away; icontract switches itself off): a strided
+    part of the systematic sweep and a few random sessions, judged by the same explicit oracles. Prints one JSON line."""
+    ctx = core.Ctx(PID, tier, seed, 0, 1)
+    sweep_n = N_SWEEP // 8 if tier == "quick" else N_SWEEP
+    stride = max(1, sweep_n // (OPT_CASES - 200))
+    cases = list(range(0, sweep_n, stride))[:OPT_CASES - 200]
+    first_random = sweep_n + n_long(tier)
+    cases += [first_random + 37 * j for j in range(200)]
+    for n in cases:
+        ctx.case = ["python -O", n]
+        run_case(ctx, n)
+        ctx.count("optimized_probe_sessions")
+    dump = ctx.dump()
+    dump["optimize"] = sys.flags.optimize
+    dump.pop("fingerprints", None)
+    sys.stdout.write("\nC04-OPT " + json.dumps(dump) + "\n")
+    return 0
+
+
+def extra_parent(ctx):
+    api_inventory(ctx)
+    code = "import sys; from checks import c04_ledger as m; sys.exit(m.optimized_probe(%d, %r))" % (ctx.seed, ctx.tier)
+    try:
+        r = subprocess.run([sys.executable, "-O", "-B", "-c", code], cwd=core.VERIF, capture_output=True, text=True, timeout=900)
+    except (OSError, subprocess.TimeoutExpired) as e:
+        ctx.inconclusive("the python -O probe did not run: %r" % (e,))
+        return
+    line = [l for l in r.stdout.splitlines() if l.startswith("C04-OPT ")]
+    if r.returncode != 0 or not line:
+        ctx.inconclusive("the python -O probe failed (rc=%s): %s" % (r.returncode, (r.stdout + r.stderr)[-600:]))
+        return
+    dump = json.loads(line[-1][len("C04-OPT "):])
+    if dump.get("optimize", 0) < 1:
+        ctx.inconclusive("the python -O probe did not run optimized")
+        return
+    for key, v in dump["counters"].items():
+        if key == "optimized_probe_sessions":
+            ctx.count(key, v)
+        elif key.startswith("branch:") or key == "steps":
+            ctx.count("optimized:" + key, v)
+    for v in dump["violations"]:
+        ctx.case = v.get("case")
+        ctx.violation(v["mechanism"], v["what"] + " [python -O]", v.get("witness"))
+    for mech, cnt in dump["violation_counts"].items():
+        extra = cnt - sum(1 for v in dump["violations"] if v["mechanism"] == mech)
+        if extra > 0:
+            ctx.violation_counts[mech] = ctx.violation_counts.get(mech, 0) + extra
+    ctx.case = None
 
 
 if __name__ == "__main__":
